@@ -448,7 +448,17 @@ Definition mstep (s : mstate) (kind : string) (a : list N) (data : list N) (rl :
     else (0, s)
   else (0, s).
 
-Fixpoint mwalk (s : mstate) (steps obs : list val) : N :=
+(* a valid SET_VRING_NUM that the daemon refuses: judged only where the step before it was a reply-bearing request that
+   succeeded, which shows that the daemon was serving and that the refusal is the handler's own *)
+Definition proves_serving (kind : string) (res : val) : bool :=
+  (String.eqb kind "get_queue_num" || String.eqb kind "get_vring_base")
+  && match res with VL [VS "ok"; VN _] => true | _ => false end.
+Definition num_refused_wrongly (s : mstate) (kind : string) (a : list N) (res : val) : bool :=
+  String.eqb kind "set_vring_num" && negb (m_ok res)
+  && (nth 0 a 0 <? N.of_nat (List.length (ms_rings s)))
+  && negb (nth 1 a 0 =? 0) && (nth 1 a 0 <=? ms_maxq s) && is_pow2 (nth 1 a 0).
+
+Fixpoint mwalk (s : mstate) (serving : bool) (steps obs : list val) : N :=
   match steps, obs with
   | _, [] => 0
   | [], _ => 0
@@ -460,7 +470,9 @@ Fixpoint mwalk (s : mstate) (steps obs : list val) : N :=
       | VS "panic" => 5            (* C05: the step brought the backend side down *)
       | _ =>
           match val_NL nums with
-          | Some a => let '(v, s') := mstep s kind a data rl res in if v =? 0 then mwalk s' rs ro else v
+          | Some a =>
+              if serving && num_refused_wrongly s kind a res then 14
+              else let '(v, s') := mstep s kind a data rl res in if v =? 0 then mwalk s' (proves_serving kind res) rs ro else v
           | None => 0
           end
       end
